@@ -18,7 +18,9 @@ MANIFEST = dict(
          '(`node --check`, scanner), correspondence model == scanned output. Name injectivity (fmt_pascal(ns+name), '
          'fmt_func(ns_route, v), `XReference` / variant interface names) and the closure invariant apiWF are '
          'hypotheses; apiWF is evaluated on every generated API. Not judged: comment text, TypeScript reserved words, '
-         '--extra-arg / -i / -s / -p.',
+         '--extra-arg / -i / -s / -p. Inputs: every specgen preset, a grid family (every type shape x every position, '
+         'the same names in two namespaces, an alias-only namespace), an attribute family (route schemas of every '
+         'printable attribute type x adversarial values x order) and corpus seeds.',
     technique='Lean 4 proof + translator + differential correspondence (declaration scanners) + reference oracle + node',
     design='5 C16 / 4.5 DECL')
 
